@@ -77,9 +77,14 @@ def steps (ops obs : List Json) : List (Nat × Json × Json) :=
 
 /-! ### `no_dup_launch` and `no_rerun` -/
 
+/-- a main loop ran to its end (and wrote the task-pool table) at some observation in `[a, b]` -/
+def completedLoopIn (st : List (Nat × Json × Json)) (a b : Nat) : Bool :=
+  st.any fun (i, op, ob) => a ≤ i && i ≤ b && jStrField? op "op" == some "loop" &&
+    jBoolField? ob "crashed" != some true && (jOptField ob "stop").isNone
+
 /-- how a restart between observation `i1` and the launch at `i2` explains a repeated launch of `k` under submit
 number `sn`: the database at the restart -/
-def explain (st : List (Nat × Json × Json)) (k : Key) (sn : Nat) (i1 i2 : Nat) : Option String :=
+def explain (st : List (Nat × Json × Json)) (fin : List (Nat × Key)) (k : Key) (sn : Nat) (i1 i2 : Nat) : Option String :=
   st.findSome? fun (c, op, ob) =>
     if i1 ≤ c && c < i2 && isRestartObs op ob then
       match findTask (poolOf ob) k with
@@ -89,8 +94,19 @@ def explain (st : List (Nat × Json × Json)) (k : Key) (sn : Nat) (i1 i2 : Nat)
         let sn' := (jNatField? t "sn").getD 0
         if sn' < sn then
           if rowFinal then
+            -- the recorded finding: the task finished after the pool table was last written
+            -- (a main loop that completed after the task finished has written the table without it)
+            if (match ((fin.filter fun e => e.2 == k && e.1 ≤ c).map (·.1)).getLast? with
+                | some f => completedLoopIn st f c
+                | none => false) then none else
             some s!"stale-pool-table: at the restart of op {c} the task_states row of {keyStr k} says {(row.map (·.1)).getD "?"} but the task_pool table still listed it as preparing: it is prepared again"
           else
+            -- by design only while the database has not seen job `sn` submitted: its row still says waiting /
+            -- preparing, or carries an older submit number
+            let unseen := match row with
+              | some (rs, rsn, _) => rs == "waiting" || rs == "preparing" || rsn < sn
+              | none => true
+            if !unseen then none else
             some s!"relaunch-same-submit-number: at the restart of op {c} {keyStr k} comes back {(jStrField? t "st").getD "?"} with submit number {sn'} (the database had not yet seen job {sn} submitted): that number is used again"
         else none
       | none => none
@@ -107,7 +123,7 @@ def judgeLaunches (ops obs : List Json) : List Fail × List Key :=
     | (i1, p, n, sn) :: rest =>
       (match rest.find? fun e => e.2.1 == p && e.2.2.1 == n && e.2.2.2 == sn with
         | some (i2, _, _, _) =>
-          (match explain st (p, n) sn i1 i2 with
+          (match explain st fin (p, n) sn i1 i2 with
           | some w => [⟨true, w ++ s!" (launches at ops {i1} and {i2})"⟩]
           | none => [⟨false, s!"job {keyStr (p, n)}/{sn} is launched twice (ops {i1} and {i2}) with no restart in between that explains it"⟩])
         | none => []) ++ dups rest
@@ -115,13 +131,13 @@ def judgeLaunches (ops obs : List Json) : List Fail × List Key :=
   let reruns : List Fail := ls.filterMap fun (i2, p, n, sn) =>
     match fin.find? fun e => e.2 == (p, n) && e.1 < i2 with
     | some (i1, _) =>
-      (match explain st (p, n) sn i1 i2 with
+      (match explain st fin (p, n) sn i1 i2 with
       | some w => some ⟨true, w ++ s!" ({keyStr (p, n)} had finished at op {i1}, launched again at op {i2})"⟩
       | none => some ⟨false, s!"{keyStr (p, n)} had reached a final status at op {i1} and is launched again (job {sn}) at op {i2}"⟩)
     | none => none
   let explained : List Key := ls.filterMap fun (i2, p, n, sn) =>
     match ls.find? fun e => e.2.1 == p && e.2.2.1 == n && e.2.2.2 == sn && e.1 < i2 with
-    | some (i1, _, _, _) => if (explain st (p, n) sn i1 i2).isSome then some (p, n) else none
+    | some (i1, _, _, _) => if (explain st fin (p, n) sn i1 i2).isSome then some (p, n) else none
     | none => none
   (reruns ++ dups ls, explained.eraseDups)
 
@@ -164,17 +180,42 @@ def downstream (g : Graph) (roots : List Key) : List Key :=
       go fuel (seen ++ new.eraseDups) (todo ++ new.eraseDups)
   go (n * n + n + 1) roots roots
 
-/-- the instances that a restart left stranded: a committed `task_states` row that is not final, while the instance
-is not in the restored pool (so `spawn_task` will say "task was removed") -/
+/-- `[p, n]` pairs of the observation key `adds`: the instances added to the pool during the op -/
+def addsOf (ob : Json) : List Key :=
+  ((jArrField? ob "adds").getD []).filterMap fun a =>
+    match jArr? a with
+    | some (p :: n :: _) => match jInt? p, jStr? n with
+      | some p, some n => some (p, n)
+      | _, _ => none
+    | _ => none
+
+def isLoopOp (op : Json) : Bool := jStrField? op "op" == some "loop"
+
+/-- the instances added to the pool since the task-pool table was last written before the restart of observation
+`c`: the table is written at the end of every main loop that completes (`none`: no main loop has completed yet -
+the table has never been written) -/
+def addedSincePoolWrite (st : List (Nat × Json × Json)) (c : Nat) : Option (List Key) :=
+  let done := st.filter fun (i, op, ob) => i < c && isLoopOp op && jBoolField? ob "crashed" != some true &&
+    (jOptField ob "stop").isNone
+  match done.getLast? with
+  | none => none
+  | some (l, _, _) => some ((st.filter fun (i, _, _) => l < i && i ≤ c).flatMap fun (_, _, ob) => addsOf ob)
+
+/-- the instances that a restart left stranded by the stale pool table: a committed `task_states` row that is not
+final and has no outputs, while the instance is not in the restored pool (so `spawn_task` will say "task was
+removed") - and it was added to the pool after the task-pool table was last written (otherwise the table has lost
+it, which is not the recorded finding) -/
 def stranded (st : List (Nat × Json × Json)) : List (Key × Nat) :=
   st.flatMap fun (c, op, ob) =>
     if !isRestartObs op ob then [] else
+    let recent := addedSincePoolWrite st c
     ((jArrField? ob "ts").getD []).filterMap fun r =>
       match jArr? r with
       | some [p, n, _f, stt, _sn, _fw, outs] =>
         match jInt? p, jStr? n, jStr? stt with
         | some p, some n, some s =>
-          if !isFinalStr s && ((jArr? outs).getD []).isEmpty && (findTask (poolOf ob) (p, n)).isNone then some ((p, n), c) else none
+          if !isFinalStr s && ((jArr? outs).getD []).isEmpty && (findTask (poolOf ob) (p, n)).isNone &&
+              (match recent with | none => true | some l => l.contains (p, n)) then some ((p, n), c) else none
         | _, _, _ => none
       | _ => none
 
@@ -252,7 +293,21 @@ def judgeDiff (i : Json) (g : Graph) (ops obs : List Json) (relaunched : List Ke
     let d3 : List Fail := fi.filterMap fun e =>
       if (fu.find? (·.1 == e.1)).isSome then none else
         some ⟨false, s!"{keyStr e.1} ends with outputs {e.2.compress} in the killed-and-restarted run and never exists in the uninterrupted run"⟩
-    d1 ++ d2 ++ d3
+    -- the submit numbers an instance is launched under (job outcomes are a function of the submit number, so the
+    -- uninterrupted run fixes how many jobs the instance needs): one more is a job too many
+    let snsOf (os : List Json) (k : Key) : List Nat :=
+      (os.flatMap fun ob => (launches ob).filterMap fun l => if (l.1, l.2.1) == k then some l.2.2 else none).eraseDups
+    let d4 : List Fail := (lu.filter fun k => li.contains k).filterMap fun k =>
+      let su := snsOf bobs k
+      let si := snsOf obs k
+      let extra := si.filter fun n => !su.contains n
+      if extra.isEmpty then none
+      else if (unl.any (·.1 == k)) || downU.contains k then
+        some ⟨true, s!"outputs-not-restored: (consequence) {keyStr k} is launched under submit numbers {si} in the killed-and-restarted run and {su} in the uninterrupted run"⟩
+      else if relaunched.contains k || downR.contains k then
+        some ⟨true, s!"relaunch-same-submit-number: (consequence) {keyStr k} is launched under submit numbers {si} in the killed-and-restarted run and {su} in the uninterrupted run"⟩
+      else some ⟨false, s!"{keyStr k} is run once more: launched under submit numbers {si} in the killed-and-restarted run, {su} in the uninterrupted run"⟩
+    d1 ++ d2 ++ d3 ++ d4
 
 def handle (i o : Json) : Except String Reply := do
   if let some r := crashReply? i then return r
